@@ -56,7 +56,17 @@ def run(ll, model, bound, queries, opts, qcap, res):
             res['status'] = 'inconclusive'; res['message'] = 'solver cap hit on analysis obligations'; break
         if r != 'sat': break
         n = E.widen(m)
-        if n == 0 or it > 10:
+        if n == 0 or it > int(opts.get('cegar', '10')):
+            w = E.check_wild(m) if E.model != 'seqonly' else None
+            if w is not None:
+                e, a, wm = w
+                res['queries'].append(dict(what='assert', verdict='sat', solver_s=0.0, wild=True,
+                                           failing=[dict(tid=e.tid, label='WILD access outside every live allocation at %#x: %s' % (a, e.text[:60]))],
+                                           trace=E.trace(wm)[:12000], witness=E.witness(wm)))
+                res['explore_s'] = round(time.time() - t0, 2); res['stats'] = dict(E.stats); res['enc'] = dict(E.enc_stats); res['cegar_rounds'] = it
+                res['obligations'] = nob; res['functions'] = sorted(E.fn_seen); res['threads'] = len(names)
+                res['n_asserts'] = len(E.asserts); res['n_stuck_sites'] = len(E.stuck); res['n_exceeded'] = len(E.exceeded)
+                return
             res['status'] = 'inconclusive'; res['message'] = 'analysis obligations do not converge (CEGAR round %d)' % it
             res['oblig_trace'] = E.trace(m)[:6000]
             break
